@@ -91,3 +91,18 @@ def int_ids(df):
             if v.dtype.kind == "f" and np.all(np.isfinite(v)) and np.all(np.abs(v) < 2.0 ** 53) and np.all(v == np.rint(v)):
                 out[c] = v.astype("int64")
     return out
+
+
+POS_COLUMNS = ["x", "y", "z", "shift_x", "shift_y", "shift_z"]
+
+
+def int_positions(df):
+    """The same table with the position / shift columns stored as int64 where every value of the column is a finite
+    integer (lists of freshly picked particles built from integer data, as in the repository's own fixtures)."""
+    out = df.copy()
+    for c in POS_COLUMNS:
+        if c in out.columns:
+            v = out[c].to_numpy()
+            if v.dtype.kind == "f" and np.all(np.isfinite(v)) and np.all(np.abs(v) < 2.0 ** 53) and np.all(v == np.rint(v)):
+                out[c] = v.astype("int64")
+    return out
